@@ -263,6 +263,164 @@ pub fn storage_free_program(r: &mut Rng) -> Vec<u8> {
     assemble(&bs, shape)
 }
 
+/// one small motif repeated many times in straight-line code: values, keys and nesting that grow
+/// with the length of the program (native-stack depth, tree size, storage history length)
+pub fn repeated_motif_program(r: &mut Rng) -> Vec<u8> {
+    const MOTIFS: [&[u8]; 10] = [
+        &[0x54],                                                          // load from the loaded word
+        &[0x60, 0x01, 0x55, 0x60, 0x01, 0x54, 0x5f, 0x55, 0x5f, 0x54],    // copy between two slots, re-loading
+        &[0x80, 0x01],                                                    // x = x + x
+        &[0x5f, 0x52, 0x60, 0x20, 0x5f, 0x20],                            // x = keccak(x)
+        &[0x60, 0x20, 0x52, 0x33, 0x5f, 0x52, 0x60, 0x40, 0x5f, 0x20],    // x = keccak(caller . x)
+        &[0x80, 0x54, 0x01],                                              // x = x + sload(x)
+        &[0x80, 0x80, 0x55],                                              // sstore(x, x)
+        &[0x60, 0xff, 0x16, 0x60, 0x08, 0x1b],                            // x = (x & 0xff) << 8
+        &[0x80, 0x51, 0x18],                                              // x = x ^ mload(x)
+        &[0x5f, 0x54, 0x01, 0x80, 0x5f, 0x55],                            // s0 = s0 + x
+    ];
+    let m = MOTIFS[r.below(MOTIFS.len())];
+    let reps = [3usize, 10, 30, 100, 300, 1000, 2400][r.below(7)].min(24_000 / m.len());
+    let mut out = vec![0x5f, 0x54];
+    for _ in 0..reps {
+        out.extend_from_slice(m);
+    }
+    out.extend_from_slice(&[0x5f, 0x55, 0x00]);
+    out
+}
+
+/// real storage accesses whose results meet look-alike hashes (keccak(key . CONST),
+/// keccak(CONST) + i) in the same expression, outside the access itself
+pub fn mixed_lookalike_program(r: &mut Rng) -> Vec<u8> {
+    let mut used = vec![];
+    let n = 1 + r.below(3);
+    let mut bs: Vec<Vec<u8>> = vec![];
+    for i in 0..n {
+        let real = random_var(r, &mut used);
+        let mut fake = random_var(r, &mut used);
+        if matches!(fake.kind, Kind::Word | Kind::Addr | Kind::Packed(_)) {
+            fake.kind = if r.chance(1, 2) { Kind::Map(vec![r.chance(1, 2)]) } else { Kind::Dyn };
+        }
+        let mut a = vm::Asm::new(0);
+        // look-alike first (it uses memory), then the real access
+        push_key(&mut a, r, &fake);
+        push_key(&mut a, r, &real);
+        a.op(0x54);
+        a.op([0x14u8, 0x01, 0x18, 0x10][r.below(4)]);
+        match r.below(3) {
+            0 => ret_top(&mut a),
+            1 => {
+                a.push_u(i as u64 + 200);
+                a.op(0x55);
+                a.op(0x00);
+            }
+            _ => {
+                a.push_u(0x60);
+                a.op(0x52);
+                a.push_u(0x20);
+                a.push_u(0x60);
+                a.op(0xa0);
+                a.op(0x00);
+            }
+        }
+        bs.push(a.bytes);
+    }
+    let shape = r.below(2);
+    assemble(&bs, shape)
+}
+
+/// literal keys that are Keccak images of small numbers, on either side of the recognised table
+pub fn hashed_literal_program(r: &mut Rng) -> Vec<u8> {
+    use storage_layout_extractor::{tc::lift::proxy_slots::ProxySlots, vm::value::known::KnownWord};
+    let i = [0usize, 1, 5, 9998, 9999, 10000, 10001, 20000][r.below(8)];
+    let h = ProxySlots::sha3_known_words(&[KnownWord::from(i)]).value_le().to_be_bytes().to_vec();
+    let mut bs: Vec<Vec<u8>> = vec![];
+    if r.chance(2, 3) {
+        let mut a = vm::Asm::new(0);
+        a.op(0x36);
+        a.push_word(&h);
+        a.op(0x55);
+        a.op(0x00);
+        bs.push(a.bytes);
+    }
+    if bs.is_empty() || r.chance(1, 2) {
+        let mut a = vm::Asm::new(0);
+        a.push_word(&h);
+        a.op(0x54);
+        ret_top(&mut a);
+        bs.push(a.bytes);
+    }
+    assemble(&bs, r.below(2))
+}
+
+/// chains of shifts and masks over a loaded word, stored into another slot: nested sub-words
+pub fn mask_chain_program(r: &mut Rng) -> Vec<u8> {
+    let n = 1 + r.below(3);
+    let mut bs: Vec<Vec<u8>> = vec![];
+    for i in 0..n {
+        let mut a = vm::Asm::new(0);
+        a.push_u(i as u64);
+        a.op(0x54);
+        let steps = 2 + r.below(4);
+        if r.chance(1, 3) {
+            // a narrow field high in the word, masked again with a wider mask
+            let k = [200u64, 240, 248, 250, 255][r.below(5)];
+            a.push_u(k);
+            a.op(0x1c);
+            a.push_u([0x3fu64, 0xff, 0x1, 0xffff][r.below(4)]);
+            a.op(0x16);
+            a.push_word(&vec![0xff; [2usize, 16, 20, 32][r.below(4)]]);
+            a.op(0x16);
+        }
+        for _ in 0..steps {
+            match r.below(7) {
+                0 | 1 => {
+                    // right shift by a constant
+                    let k = [0u64, 8, 96, 128, 160, 200, 248, 250, 255, 256, 300][r.below(11)];
+                    a.push_u(k);
+                    a.op(0x1c);
+                }
+                2 => {
+                    let k = [8u64, 16, 96, 160, 248, 255][r.below(6)];
+                    a.push_u(k);
+                    a.op(0x1b);
+                }
+                3 => {
+                    // multiply / divide by a power of two
+                    let k = [8usize, 16, 96, 160, 248][r.below(5)];
+                    let mut w = vec![0u8; 32];
+                    w[31 - k / 8] = 1;
+                    a.push_word(&w);
+                    a.op(if r.chance(1, 2) { 0x02 } else { 0x04 });
+                    if r.chance(1, 2) {
+                        a.op(0x90);
+                    }
+                }
+                _ => {
+                    // mask: `len` one-bits starting at `off`
+                    let len = [1usize, 6, 8, 32, 64, 128, 160, 255, 256][r.below(9)];
+                    let off = [0usize, 0, 0, 8, 96, 100, 128, 200, 250][r.below(9)];
+                    let mut w = vec![0u8; 32];
+                    for b in off..(off + len).min(256) {
+                        w[31 - b / 8] |= 1 << (b % 8);
+                    }
+                    a.push_word(&w);
+                    a.op(0x16);
+                }
+            }
+        }
+        if r.chance(1, 2) {
+            a.push_u(10 + i as u64);
+            a.op(0x55);
+            a.op(0x00);
+        } else {
+            ret_top(&mut a);
+        }
+        bs.push(a.bytes);
+    }
+    let shape = r.below(2);
+    assemble(&bs, shape)
+}
+
 pub fn random_slot(r: &mut Rng, used: &mut Vec<Vec<u8>>) -> Vec<u8> {
     loop {
         let mut s = vec![0u8; 32];
